@@ -170,6 +170,77 @@ def run_op(name, recursive):
     return problems
 
 
+def burst(rootkind="str"):
+    """several operations while the reader is held back, so that their records arrive in one read batch: activity in a
+    directory, its rename, activity under the new name.  Soundness only: every non-synthetic event names an entry under
+    the name it really had when the operation happened (a creation under the new name must not be reported under the old)"""
+    import threading
+    import watchdog.observers.inotify_c as ic
+    base = tempfile.mkdtemp(prefix="c03u")
+    problems = []
+    gate = threading.Event()
+    real = ic.Inotify.read_events
+
+    def gated(self, *a, **k):
+        gate.wait(5)
+        return real(self, *a, **k)
+    try:
+        root, out = build(base)
+        wroot = os.fsencode(root) if rootkind == "bytes" else root
+        conv = (lambda p: os.fsencode(p)) if rootkind == "bytes" else (lambda p: p)
+        q = queue.Queue()
+        em = InotifyEmitter(q, ObservedWatch(wroot, recursive=True))
+        ic.Inotify.read_events = gated
+        em.start()
+        try:
+            R = lambda *p: os.path.join(root, *p)
+            open(R("a", "x0"), "w").close()
+            os.rename(R("a"), R("c"))
+            open(R("c", "n1"), "w").close()
+            os.mkdir(R("c", "nd"))
+            gate.set()
+            sent = R("zz-sentinel")
+            open(sent, "w").close()
+            got, t0, seen = [], time.time(), False
+            while time.time() - t0 < 10:
+                try:
+                    ev, _w = q.get(timeout=0.1)
+                except queue.Empty:
+                    if seen:
+                        break
+                    continue
+                if ev.src_path == conv(sent):
+                    seen = True
+                    continue
+                got.append(ev)
+            if not seen:
+                return ["burst: the emitter went quiet (sentinel never reported)"]
+            real_old = {conv(p) for p in (R("a"), R("a", "x0"), R("a", "f"), R("a", "s"), R("a", "s", "g"))}
+            real_new = {conv(p) for p in (R("c"), R("c", "n1"), R("c", "nd"), R("c", "x0"), R("c", "f"), R("c", "s"), R("c", "s", "g"), root)}
+            for e in got:
+                if e.is_synthetic:
+                    continue
+                for p in (e.src_path, getattr(e, "dest_path", "")):
+                    if p and p not in real_old and p not in real_new and p != conv(root):
+                        problems.append(f"burst (touch a/x0; mv a c; touch c/n1; mkdir c/nd read as one batch): {e!r} names {p!r}, an entry that never existed under that name")
+                        break
+                if problems:
+                    break
+            need = [E.FileCreatedEvent(conv(R("c", "n1"))), E.DirCreatedEvent(conv(R("c", "nd"))), E.DirMovedEvent(conv(R("a")), conv(R("c")))]
+            for e in need:
+                if e not in got and not problems:
+                    problems.append(f"burst: required {e!r} missing; delivered {[x for x in got if not x.is_synthetic][:8]}")
+        finally:
+            gate.set()
+            ic.Inotify.read_events = real
+            em.stop()
+            em.join(3)
+    finally:
+        ic.Inotify.read_events = real
+        shutil.rmtree(base, ignore_errors=True)
+    return problems
+
+
 def names():
     b = tempfile.mkdtemp(prefix="c03n")
     try:
